@@ -1,6 +1,7 @@
 package rules
 
 import (
+	"fmt"
 	"go/token"
 	"go/types"
 	"strings"
@@ -565,6 +566,138 @@ func checkC04(c *Ctx) {
 			r.Ok("C04/NONEMPTY", shortFn(local), p.Pos(local.Pos()), "%d success returns, base name provably non-empty", n)
 		}
 		c.c04FirstPlus(local)
+	}
+	c.c04VerbatimTags()
+}
+
+// c04VerbatimTags: a canonicaliser that copies a constant verbatim into the name — the
+// address-literal tag in `"[IPv6:" + ToLower(rest)`, selected by a case-sensitive HasPrefix —
+// is case-insensitive only as long as every other spelling of that constant is refused. The
+// necessary condition decided here: wherever the package recognises such a constant in input
+// text, it does so case-sensitively (no strings.EqualFold with it, no comparison of a
+// lower/upper-cased copy of the input with it). Otherwise an address is accepted in two
+// spellings that the canonicaliser maps to two different names.
+func (c *Ctx) c04VerbatimTags() {
+	r, p := c.R, c.P
+	rule := "C04/CASE/verbatim-tag"
+	r.Rule(rule, "a constant with letters that a naming function copies verbatim into the name under a case-sensitive prefix test is matched case-sensitively everywhere in pkg/policy (no EqualFold against it, no comparison of a case-folded copy of the input with it)")
+	fns := pkgFuncs(p, "pkg/policy")
+	letters := func(s string) string {
+		var b strings.Builder
+		for _, ch := range strings.ToLower(s) {
+			if (ch >= 'a' && ch <= 'z') || (ch >= '0' && ch <= '9') {
+				b.WriteRune(ch)
+			}
+		}
+		return b.String()
+	}
+	hasLetter := func(s string) bool {
+		for _, ch := range s {
+			if (ch >= 'a' && ch <= 'z') || (ch >= 'A' && ch <= 'Z') {
+				return true
+			}
+		}
+		return false
+	}
+	type tag struct {
+		k    string
+		site string
+	}
+	var tags []tag
+	for _, fn := range fns {
+		fn := fn
+		eng.EachInstr(fn, func(in ssa.Instruction) {
+			b, ok := in.(*ssa.BinOp)
+			if !ok || b.Op != token.ADD {
+				return
+			}
+			k, isC := eng.ConstString(b.X)
+			if !isC || !hasLetter(k) {
+				return
+			}
+			// selected by a case-sensitive prefix / equality test on the same constant
+			sel := false
+			eng.EachInstr(fn, func(x ssa.Instruction) {
+				call, ok := x.(*ssa.Call)
+				if !ok || eng.CalleeName(call.Common()) != "strings.HasPrefix" || len(call.Call.Args) != 2 {
+					return
+				}
+				if k2, ok := eng.ConstString(call.Call.Args[1]); ok && k2 == k {
+					sel = true
+				}
+			})
+			if sel {
+				tags = append(tags, tag{k, p.InstrPos(in)})
+			}
+		})
+	}
+	if len(tags) == 0 {
+		r.Ok(rule, "pkg/policy", "", "no naming function copies a lettered constant verbatim into a name")
+		return
+	}
+	overlaps := func(a, b string) bool {
+		la, lb := letters(a), letters(b)
+		return la != "" && lb != "" && (strings.Contains(la, lb) || strings.Contains(lb, la))
+	}
+	folded := func(v ssa.Value) bool {
+		v = eng.StripConv(v)
+		if sl, ok := v.(*ssa.Slice); ok {
+			v = eng.StripConv(sl.X)
+		}
+		call, ok := v.(*ssa.Call)
+		if !ok {
+			return false
+		}
+		switch eng.CalleeName(call.Common()) {
+		case "strings.ToLower", "strings.ToUpper", "strings.ToTitle", "bytes.ToLower", "bytes.ToUpper":
+			return true
+		}
+		return false
+	}
+	for _, tg := range tags {
+		cons := fmt.Sprintf("tag:%q", tg.k)
+		bad := ""
+		for _, fn := range fns {
+			fn := fn
+			eng.EachInstr(fn, func(in ssa.Instruction) {
+				if bad != "" {
+					return
+				}
+				switch x := in.(type) {
+				case *ssa.Call:
+					name := eng.CalleeName(x.Common())
+					args := x.Call.Args
+					switch name {
+					case "strings.EqualFold", "bytes.EqualFold":
+						for _, a := range args {
+							if k, ok := eng.ConstString(a); ok && overlaps(k, tg.k) {
+								bad = fmt.Sprintf("%s at %s matches %q without regard to case", name, p.InstrPos(in), k)
+							}
+						}
+					case "strings.HasPrefix", "strings.HasSuffix", "strings.Contains", "strings.Index":
+						if len(args) == 2 {
+							if k, ok := eng.ConstString(args[1]); ok && overlaps(k, tg.k) && folded(args[0]) {
+								bad = fmt.Sprintf("%s at %s matches %q against a case-folded copy of the input", name, p.InstrPos(in), k)
+							}
+						}
+					}
+				case *ssa.BinOp:
+					if x.Op == token.EQL || x.Op == token.NEQ {
+						for i, a := range []ssa.Value{x.X, x.Y} {
+							other := []ssa.Value{x.Y, x.X}[i]
+							if k, ok := eng.ConstString(a); ok && overlaps(k, tg.k) && folded(other) {
+								bad = fmt.Sprintf("the comparison at %s matches %q against a case-folded copy of the input", p.InstrPos(in), k)
+							}
+						}
+					}
+				}
+			})
+		}
+		if bad != "" {
+			r.Bad(rule, cons, tg.site, "the name keeps the constant %q verbatim (selected by a case-sensitive prefix test, %s), but %s: an address is then accepted with the constant in another letter case, for which the canonicaliser takes its other branch — two spellings of one address name two mailboxes", tg.k, tg.site, bad)
+		} else {
+			r.Ok(rule, cons, tg.site, "%q is copied verbatim and recognised case-sensitively everywhere in pkg/policy", tg.k)
+		}
 	}
 }
 
